@@ -156,6 +156,12 @@ def check(col, prog, tier, profile, fixture=None):
         # roots: results of find on the two index parameters
         roots = [e.res for e in fc]
         # ---- D3
+        if ret[0] == "bin" and ret[1] in ("Ne", "Eq") and len(ret) == 4:
+            # `u != v` returned as an expression: the path facts decide it
+            for rel, val in (("Ne", 1), ("Eq", 0)):
+                if util.entails(I, st.facts, rel, ret[2], ret[3]):
+                    ret = mk_int(val if ret[1] == "Ne" else 1 - val)
+                    break
         if ret == mk_int(0):
             ok = not pstores and not sstores and len(roots) >= 2 and util.entails(I, st.facts, "Eq", roots[0], roots[1])
             if ok:
@@ -585,6 +591,54 @@ def _check_init(col, crate, rid, P, SZ):
         for f in want:
             if covered[f]:
                 done[f] = True
+    # internal iteration: self.F.iter_mut()[.enumerate()].for_each(|item| ..) - the closure body is the loop body, its
+    # parameter the item
+    fe_cover = {f: bool(I.final_states) for f in want}
+    for st in I.final_states:
+        hit = set()
+        for e in st.event_list():
+            if e.kind != "call" or e.extra.get("name") != "for_each" or len(e.args) < 2:
+                continue
+            tree = item_tree(e.args[0])
+            clo = e.args[1]
+            cb = crate.by_key.get(clo[1][1]) if clo[0] == "agg" and isinstance(clo[1], tuple) and clo[1][0] == "closure" else None
+            if tree is None or cb is None:
+                continue
+            Ic = util.analyse(cb)
+            item = ("param", 2, Ic.names.get(2))
+
+            def resolve_c(t):
+                if t == item:
+                    return tree
+                if isinstance(t, tuple) and t and t[0] == "proj":
+                    sub = resolve_c(t[2])
+                    if sub and sub[0] == "tuple" and isinstance(t[1], int) and t[1] < len(sub[1]):
+                        return sub[1][t[1]]
+                return None
+
+            per_path = []
+            for cst in Ic.final_states:
+                h_ = set()
+                for ce in cst.event_list():
+                    if ce.kind != "store":
+                        continue
+                    cell = resolve_c(ce.place[1]) if ce.place[0] == "deref" else None
+                    if cell is None or cell[0] != "cell":
+                        continue
+                    f = cell[1]
+                    good = (resolve_c(ce.val) == ("pos",)) if want[f] == "index" else (ce.val == mk_int(1))
+                    if good:
+                        h_.add(f)
+                    else:
+                        stray[f].append(ce)
+                per_path.append(h_)
+            if per_path:
+                hit |= set.intersection(*per_path)
+        for f in want:
+            fe_cover[f] = fe_cover[f] and f in hit
+    for f in want:
+        if fe_cover[f]:
+            done[f] = True
     for f in want:
         if stray[f]:
             done[f] = False
